@@ -377,6 +377,27 @@ def stats_replay(ck, em, rng, n):
         same = em.GMMStats(C, D)
         same.load(p)
         loaded.append(("load into same shape", same))
+        # the same statistics in the legacy layout the reader still accepts (no file_version attribute; n_inputs,
+        # log_liklihood [sic], T, n, sumPx, sumPxx with the arrays stored flat or shaped)
+        pl = os.path.join(ck.work, "s%d_legacy.hdf5" % i)
+        flat = bool(r.randint(0, 2))
+        with h5py.File(pl, "w") as h:
+            h["n_gaussians"] = np.int64(C)
+            h["n_inputs"] = np.int64(D)
+            h["log_liklihood"] = float(s.log_likelihood)
+            h["T"] = np.int64(s.t)
+            h["n"] = np.asarray(s.n).reshape(1, -1) if flat else np.asarray(s.n)
+            h["sumPx"] = np.asarray(s.sum_px).reshape(-1) if flat else np.asarray(s.sum_px)
+            h["sumPxx"] = np.asarray(s.sum_pxx).reshape(-1) if flat else np.asarray(s.sum_pxx)
+        try:
+            loaded.append(("from_hdf5 of a legacy-layout file", em.GMMStats.from_hdf5(pl)))
+            lg = em.GMMStats(C + 2, D)
+            lg.load(pl)
+            loaded.append(("load of a legacy-layout file into another shape", lg))
+        except Exception as e:      # noqa: BLE001
+            ck.violation("M2:GmmPersist:StatsRoundTrip", {"mechanism": "M2", "module": "GmmPersist", "how": "legacy layout",
+                                                          "shape": [C, D], "detail": "reading raised %s: %s" % (type(e).__name__, e)})
+        os.remove(pl)
         ck.replayed += 1
         ck.seen(["stats", C, D, i])
         for how, l in loaded:
